@@ -20,7 +20,9 @@ except ImportError:
     C11fc = None
 
 VARIANTS = {0: "intrusive/dynamic_buffer", 1: "container/dynamic_buffer", 2: "intrusive/static_buffer",
-            3: "container/static_buffer", 4: "container/default traits (sync::spin, backoff::Default)"}
+            3: "container/static_buffer", 4: "container/default traits (sync::spin, backoff::Default)",
+            5: "intrusive/bounds-checked buffer of any size, Exp2=false (observable only)"}
+NONPOW2_BUFFERS = [6, 10, 14, 5, 7, 12, 3]    # variant 5: buffer sizes; capacity() must be floor2(size) - 1
 CAPS = [1, 3, 7, 15]
 STEP_FUEL = 4000        # global step limit of a run (both sides; harness/C11/main.cpp uses the same number)
 LOCK_FUEL = 30000       # spin / heapify loop fuel of the model: larger than the step limit, never the first to run out
@@ -83,10 +85,17 @@ def gen_cases(ctx, n, tag="g"):
     for i in range(n):
         cap = rng.choice(CAPS) if not rng.chance(1, 3) else rng.choice([1, 3])
         variant = rng.below(5)
+        bsz = None
+        if rng.chance(1, 8):
+            # regression for the fixed finding "mspq-non-power-of-two-buffer-overflow": a buffer whose size is not a
+            # power of two; the real queue must use only the complete levels (capacity floor2(size) - 1)
+            variant = 5
+            bsz = rng.choice(NONPOW2_BUFFERS)
+            cap = (1 << (bsz.bit_length() - 1)) - 1
         kind = rng.choice(["mixed", "mixed", "phase", "phase", "seq", "single"])
         threads, npush = gen_program(rng, "mixed" if kind == "seq" else kind, cap)
         nt = len(threads)
-        c = {"id": "%s%d" % (tag, i), "cfg": [cap, LOCK_FUEL, HEAP_FUEL, variant], "threads": threads, "kind": kind}
+        c = {"id": "%s%d" % (tag, i), "cfg": [cap, LOCK_FUEL, HEAP_FUEL, variant] + ([bsz] if bsz else []), "threads": threads, "kind": kind}
         if kind == "mixed":
             c["sched"] = rand_sched(rng, nt)
         elif kind == "single":
@@ -178,6 +187,10 @@ def monitors(c, ilog):
     for x in extra:
         if x.startswith("monitor hang") or x.startswith("monitor alien") or x.startswith("monitor badcfg"):
             bad.append(("MSPriorityQueue: " + x.split(" ")[1] + " reported by the harness", x))
+        if x.startswith("monitor oob"):
+            bad.append(("MSPriorityQueue indexes its buffer out of bounds (bounds-checked buffer whose size is not a power of two)", {"monitor": x, "buffer_size": c["cfg"][4] if len(c["cfg"]) > 4 else None}))
+        if x.startswith("monitor capacity"):
+            bad.append(("MSPriorityQueue::capacity() is not floor2(buffer size) - 1 for a buffer whose size is not a power of two", {"monitor": x, "buffer_size": c["cfg"][4] if len(c["cfg"]) > 4 else None}))
     pushed = []; failed = []; popped = []
     for o in ops:
         if o.get("alien"):
@@ -328,7 +341,9 @@ def evaluate(ctx, model, impl, lin, cases, tag, stats):
         stats["ran"] += 1
         mg = strip_ghost(m)
         stats["steps"] += len(i["lines"])
-        d = conc_check.compare(mg, i)
+        d = conc_check.compare(mg, i) if c["cfg"][3] != 5 else None     # variant 5 is observable only
+        if c["cfg"][3] == 5:
+            stats["observable_only"] = stats.get("observable_only", 0) + 1
         if d is not None:
             stats["diverged"] += 1
             first_div = first_div or (c, d)
@@ -445,6 +460,21 @@ def run(ctx):
         if rc_c != 0 or not coqchk["axioms_none"]:
             ctx.violation("coqchk rejects Properties_C11 or reports axioms", {"output": out_c[-1500:]}, no_input=True)
 
+    # the real code under AddressSanitizer (plain single thread, no hook): buffers whose size is not a power of two
+    # (regression for the fixed finding mspq-non-power-of-two-buffer-overflow)
+    asan = {"cmd": "g++ -O1 -g -DNDEBUG -fsanitize=address harness/C11/asan_cap5.cpp; asan_cap5 <buffer size> <pushes>", "runs": []}
+    asan_exe = os.path.join(ctx.work, "asan_cap5")
+    rc_a, out_a = vcheck.sh(["g++", vcheck.CXXSTD, "-O1", "-g", "-DNDEBUG", "-fsanitize=address", "-fno-omit-frame-pointer", "-w", "-I" + vcheck.REPO,
+                             os.path.join(vcheck.VERIF, "harness/C11/asan_cap5.cpp"), "-pthread", "-o", asan_exe], timeout=600)
+    if rc_a != 0:
+        raise vcheck.BuildError("harness/C11/asan_cap5.cpp does not build:\n" + out_a[-2000:])
+    for bsz, npush in ((6, 5), (10, 9), (14, 13), (7, 6), (5, 4)):
+        rc_r, out_r = vcheck.sh([asan_exe, str(bsz), str(npush)], timeout=120)
+        bad_a = "AddressSanitizer" in out_r or rc_r != 0
+        asan["runs"].append({"buffer": bsz, "pushes": npush, "ok": not bad_a})
+        if bad_a:
+            ctx.violation("MSPriorityQueue with a buffer whose size is not a power of two: AddressSanitizer reports an error (or the run fails)",
+                          {"input": {"buffer_size": bsz, "pushes": npush, "program": "harness/C11/asan_cap5.cpp"}, "output": out_r[-1500:]})
     if os.environ.get("VERIF_VERBOSE"): ctx.log("violations reported; writing evidence")
     fc_ran = False; fc_stats = None
     if C11fc is not None and hasattr(C11fc, "run_fc"):
@@ -467,7 +497,8 @@ def run(ctx):
                 "sequential, and phase-structured [pushers run to completion, then poppers]); distinct = distinct model event logs; "
                 "non-trivial = some thread found a lock taken and spun (load in the TATAS loop)",
         "distinct_event_logs": len(stats["shapes"]), "impl_steps_compared": stats["steps"], "diverged": stats["diverged"],
-        "traces_validated_against_impl": stats["ran"] - stats["diverged"], "corpus_cases": ncorpus,
+        "traces_validated_against_impl": stats["ran"] - stats["diverged"] - stats.get("observable_only", 0), "corpus_cases": ncorpus,
+        "observable_only_cases(non-power-of-two bounds-checked buffers)": stats.get("observable_only", 0),
         "operations": stats["ops"], "push_failed_full(model ghost events)": stats["push_full"], "pop_empty": stats["pop_empty"],
         "model_threads_stopped(fuel/ub)": stats["model_stopped"],
         "by_capacity": stats["by_cap"], "by_variant": stats["by_variant"], "by_kind": stats["by_kind"],
@@ -479,7 +510,7 @@ def run(ctx):
         "modelled": "cds::intrusive::MSPriorityQueue push/pop/heapify_after_push/heapify_after_pop + bit_reverse_counter inc/dec; "
                     "cds::container::MSPriorityQueue runs the same atomic accesses (checked by the same correspondence)",
         "fc_part_ran": fc_ran, "fc": fc_stats,
-        "counter_tied_to_generated_code(non-gating)": tie, "coqchk(thorough tier)": coqchk,
+        "counter_tied_to_generated_code(non-gating)": tie, "asan_non_power_of_two_buffers": asan, "coqchk(thorough tier)": coqchk,
         "fc_part": "checks/C11fc.py run_fc(ctx)" if fc_ran else "checks/C11fc.py not present: the FCPriorityQueue half of C11 was NOT checked in this run",
     })
     return ctx.finish(vcheck.STD_TRUSTED + ["hook layer: khizmax_libcds_verif::atomic<T>, baton scheduler, event log (hooks/include)",
